@@ -26,6 +26,20 @@ def run_property(pid: str, tier: str, seed: int) -> int:
         run.extra_cov["functions_indexed"] = len(prog.functions)
         run.extra_cov["source_digest"] = prog.digest()
         fn(prog, run, tier)
+        if tier == "thorough" and not os.environ.get("ODCVERIF_NO_SWEEP"):
+            from .mutate import sensitivity_sweep
+
+            sw = sensitivity_sweep(pid, list(run.instances), seed)
+            run.extra_cov["sensitivity_sweep"] = sw
+            run.extra_cov["variants_built"] = sw["variants_built"]
+            run.extra_cov["variants_detected"] = sw["instances_with_detected_variant"]
+            run.rules_applied.append(
+                "sensitivity sweep: every accepted instance is broken in memory with generic AST operators (swap floor/ceil, min/max, "
+                ".xy/.yx, axis-twin names, first two arguments, flip comparison, drop keyword/guard/statement, ...) and the property's "
+                "rules are re-run; counts of instances whose breakage is reported are in coverage.sensitivity_sweep"
+            )
+            print(f"[{pid}] sensitivity sweep: {sw['instances_swept']} instances, {sw['variants_built']} variants, "
+                  f"{sw['instances_with_detected_variant']} instances with a detected variant, {sw['instances_without_detected_variant']} without")
     except AnalysisError as e:
         run.error(str(e))
     except Exception as e:  # pylint: disable=broad-except
